@@ -159,6 +159,7 @@ PAIRS = {
     ("T-F3", "T-G3"): [((), ()), (("a",), ("e",)), (("a", "a"), ("e",)), (("a", "b"), ("e", "f")), (("a", "a", "b"), ("e", "f", "e")), (("a",), ("f",))],
     ("T-F4", "T-G4"): [((), ()), (("a",), ("e",)), (("a", "b"), ("e",)), (("a", "b", "a"), ("e", "e")), (("a", "b"), ()), (("a", "b", "a"), ("e",))],
     ("T-G4", "T-F4"): [((), ())],
+    ("T-F6", "T-G1"): [((), ()), (("a",), ("e",)), (("a",), ()), (("a", "b"), ("e",)), (("a",), ("e", "e")), (("a", "a"), ("e",))],
     ("T-F5", "T-G1"): [((), ()), (("a",), ("e",)), (("b",), ()), (("a", "b"), ("e",)), (("b", "a"), ()), (("a",), ("e", "e"))],
 }
 
@@ -166,15 +167,15 @@ PAIRS = {
 def jobs(tier, seed):
     out = []
     quick = tier == "quick"
-    combos = [("T-F1", "T-G1", [0, 1]), ("T-F2", "T-G2", [0]), ("T-F4", "T-G4", [0]), ("T-F5", "T-G1", [0, 1])] if quick else \
-        [("T-F1", "T-G1", [0, 1, 2]), ("T-F2", "T-G2", [0, 1]), ("T-F3", "T-G3", [0, 1]), ("T-F4", "T-G4", [0, 1]), ("T-F5", "T-G1", [0, 1, 2])]
+    combos = [("T-F1", "T-G1", [0, 1]), ("T-F2", "T-G2", [0]), ("T-F4", "T-G4", [0]), ("T-F5", "T-G1", [0, 1]), ("T-F6", "T-G1", [0])] if quick else \
+        [("T-F1", "T-G1", [0, 1, 2]), ("T-F2", "T-G2", [0, 1]), ("T-F3", "T-G3", [0, 1]), ("T-F4", "T-G4", [0, 1]), ("T-F5", "T-G1", [0, 1, 2]), ("T-F6", "T-G1", [0, 1])]
     for fn, gn, bits in combos:
         F, G = transducer(fn), transducer(gn)
         # initial/final weights always present in quick (arc weights free)
         af = list(range(len(F.arcs), F.K)) if quick else []
         ag = list(range(len(G.arcs), G.K)) if quick else []
         out += split_job(dict(case="compose", params=dict(f=fn, g=gn, pairs=PAIRS[fn, gn], always_f=af, always_g=ag, call=(2 if quick else True))), bits)
-    for fn in (["T-F1", "T-F2"] if quick else ["T-F1", "T-F2", "T-F3", "T-G2", "T-F4"]):
+    for fn in (["T-F1", "T-F2", "T-G2", "T-F6"] if quick else ["T-F1", "T-F2", "T-F3", "T-G2", "T-F4", "T-F5", "T-F6"]):
         F = transducer(fn)
         xs = list(_strings(_alph(F, 0), 2))
         ys = list(_strings(_alph(F, 1), 2))
